@@ -239,8 +239,9 @@ Section Additive.
       - rewrite print3_call3. destruct minus; cbn [map print3 lit_m]; rewrite !print3_call3; cbn [map print3 lit_tt lit_m num_60];
           unfold render_call, t_dtadd_open, n_datetime_add, t_comma_minus_paren, t_m_close, comma_space, t_format_time_open, n_format_time, t_tt_times_60_plus, op_text;
           cbn [join]; norm_app; reflexivity.
-      - apply good_call3; [reflexivity|]. destruct minus; repeat (constructor; try assumption).
-        apply good_neg; [|cbn; lia]. destruct Gmin as [H1 H2]. split; assumption. }
+      - assert (Gnp : good (X3Neg (X3Paren (X3Bin OAdd (X3Bin OMul (call3 n_format_time [tb; lit_tt]) num_60) (call3 n_format_time [tb; lit_m]))))).
+        { apply good_neg; [|cbn; lia]. destruct Gmin as [H1 H2]. split; assumption. }
+        apply good_call3; [reflexivity|]. destruct minus; repeat (constructor; try assumption). }
     destruct (text_eqb (infer_type (print3 tb)) t_time && negb minus) eqn:Etime.
     { split.
       - rewrite print3_call3. cbn [map]. unfold render_call, t_replace_time_open, n_replace_time, comma_space. cbn [join]. norm_app. reflexivity.
@@ -252,3 +253,351 @@ Section Additive.
     - apply good_call3; [reflexivity|]. repeat (constructor; try assumption).
   Qed.
 End Additive.
+
+(* ---------------------------------------------------------------------------------------------- *)
+(* function calls: parameter migrators *)
+
+Definition pm_tree (m : pmig) (t : e3) : option e3 :=
+  match m with
+  | PAsIs => Some t
+  | PDecremented =>
+      match atoi (print3 t) with
+      | Some z => canon (itoa (int64_pred z))
+      | None => Some (X3Bin OSub (wrap t 4) num_1)
+      end
+  | PBySpaces => canon (param_by_spaces (print3 t))
+  end.
+
+Lemma pm_tree_ok m t t' : good t -> pm_tree m t = Some t' -> apply_pm m (print3 t) = print3 t' /\ good t'.
+Proof.
+  intros G H. destruct m; cbn [pm_tree apply_pm] in *.
+  - inversion H; subst. split; [reflexivity|assumption].
+  - unfold param_decremented. destruct (atoi (print3 t)) as [z|].
+    + apply canon_spec in H. exact H.
+    + inversion H; subst t'. change prec_addition with 4%nat. rewrite as_operand_print by assumption. split.
+      * cbn [print3 num_1 op_text]. unfold t_minus_one. norm_app. reflexivity.
+      * apply good_bin; [apply good_wrap; assumption | split; reflexivity | apply (wrap_lvl t 4); lia | cbn; lia].
+  - apply canon_spec in H. exact H.
+Qed.
+
+Fixpoint params_tree (pms : list pmig) (old : list e3) (defaults : list text) : option (list e3) :=
+  match pms with
+  | [] => Some []
+  | m :: pms' =>
+      match old, defaults with
+      | [], [] => Some []
+      | o :: old', _ =>
+          match pm_tree m o, params_tree pms' old' (tl defaults) with
+          | Some x, Some r => Some (x :: r)
+          | _, _ => None
+          end
+      | [], d :: defaults' =>
+          match canon d with
+          | Some dt =>
+              match pm_tree m dt, params_tree pms' [] defaults' with
+              | Some x, Some r => Some (x :: r)
+              | _, _ => None
+              end
+          | None => None
+          end
+      end
+  end.
+
+Lemma params_tree_ok : forall pms old defaults ts,
+  Forall good old -> params_tree pms old defaults = Some ts ->
+  migrate_params pms (map print3 old) defaults = map print3 ts /\ Forall good ts.
+Proof.
+  induction pms as [|m pms IH]; intros old defaults ts G H; cbn [params_tree migrate_params] in *.
+  - inversion H; subst. split; [reflexivity|constructor].
+  - destruct old as [|o old']; cbn [map].
+    + destruct defaults as [|d defaults'].
+      * inversion H; subst. split; [reflexivity|constructor].
+      * destruct (canon d) as [dt|] eqn:Ec; [|discriminate].
+        apply canon_spec in Ec. destruct Ec as [Ed Gd].
+        destruct (pm_tree m dt) as [x|] eqn:Ex; [|discriminate].
+        destruct (params_tree pms [] defaults') as [r|] eqn:Er; [|discriminate].
+        inversion H; subst ts.
+        destruct (pm_tree_ok _ _ _ Gd Ex) as [P1 G1].
+        destruct (IH [] defaults' r (Forall_nil _) Er) as [P2 G2].
+        cbn [map] in P2. split; [cbn [map]; rewrite Ed, P1, P2; reflexivity | constructor; assumption].
+    + inversion G as [|? ? Go Gold]; subst.
+      destruct (pm_tree m o) as [x|] eqn:Ex; [|discriminate].
+      destruct (params_tree pms old' (tl defaults)) as [r|] eqn:Er; [|discriminate].
+      inversion H; subst ts.
+      destruct (pm_tree_ok _ _ _ Go Ex) as [P1 G1].
+      destruct (IH old' (tl defaults) r Gold Er) as [P2 G2].
+      split; [cbn [map]; rewrite P1, P2; reflexivity | constructor; assumption].
+Qed.
+
+(* ---------------------------------------------------------------------------------------------- *)
+(* function calls: joins (SUM, CONCATENATE) *)
+
+Definition all_binops : list binop := [OExp; OMul; ODiv; OAdd; OSub; OLte; OLt; OGte; OGt; OEq; ONeq; OAmp].
+
+Definition sep_of (o : binop) : text := 32 :: op_text o ++ [32].
+
+Definition join_op (sep : text) : option binop := find (fun o => text_eqb sep (sep_of o)) all_binops.
+
+Definition join_tree (o : binop) (ts : list e3) : option e3 :=
+  match ts with
+  | [] => None
+  | t0 :: r => Some (fold_left (fun acc x => X3Bin o acc (wrap x (S (prec o)))) r (wrap t0 (prec o)))
+  end.
+
+Lemma join_cons_concat sep (g : e3 -> text) : forall l A,
+  join sep (A :: map g l) = A ++ concat (map (fun x => sep ++ g x) l).
+Proof.
+  induction l as [|x r IH]; intros A; cbn [map concat].
+  - cbn [join]. rewrite app_nil_r. reflexivity.
+  - change (join sep (A :: g x :: map g r)) with (A ++ sep ++ join sep (g x :: map g r)).
+    rewrite IH. rewrite <- !app_assoc. reflexivity.
+Qed.
+
+Lemma prec_le_7 o : (S (prec o) <= 8)%nat.
+Proof. destruct o; cbn; lia. Qed.
+
+Lemma fold_join_ok o : forall r acc,
+  good acc -> (prec o <= lvl3 acc)%nat -> Forall good r ->
+  print3 (fold_left (fun acc x => X3Bin o acc (wrap x (S (prec o)))) r acc)
+    = print3 acc ++ concat (map (fun x => sep_of o ++ print3 (wrap x (S (prec o)))) r)
+  /\ good (fold_left (fun acc x => X3Bin o acc (wrap x (S (prec o)))) r acc)
+  /\ (prec o <= lvl3 (fold_left (fun acc x => X3Bin o acc (wrap x (S (prec o)))) r acc))%nat.
+Proof.
+  induction r as [|x r IH]; intros acc Ga La Gr; cbn [fold_left map concat].
+  - rewrite app_nil_r. split; [reflexivity|split; assumption].
+  - inversion Gr as [|? ? Gx Gr']; subst.
+    assert (Gb : good (X3Bin o acc (wrap x (S (prec o))))).
+    { apply good_bin; [assumption | apply good_wrap; assumption | assumption | apply wrap_lvl; apply prec_le_7]. }
+    destruct (IH (X3Bin o acc (wrap x (S (prec o)))) Gb (Nat.le_refl _) Gr') as (P & G & L).
+    split; [|split; assumption].
+    rewrite P. cbn [print3]. unfold sep_of. norm_app. reflexivity.
+Qed.
+
+Lemma join_op_sep sep o : join_op sep = Some o -> sep = sep_of o.
+Proof.
+  unfold join_op. intros H. apply find_some in H. destruct H as [_ H]. apply text_eqb_eq in H. exact H.
+Qed.
+
+Lemma join_ok sep o ts t :
+  join_op sep = Some o -> Forall good ts -> join_tree o ts = Some t ->
+  join sep (join_operands (map print3 ts) (prec o)) = print3 t /\ good t.
+Proof.
+  intros Hs G H. apply join_op_sep in Hs. subst sep.
+  destruct ts as [|t0 r]; [discriminate|]. cbn [join_tree] in H. inversion H; subst t. clear H.
+  inversion G as [|? ? G0 Gr]; subst.
+  assert (L0 : (prec o <= lvl3 (wrap t0 (prec o)))%nat) by (apply wrap_lvl; pose proof (prec_le_7 o); lia).
+  destruct (fold_join_ok o r (wrap t0 (prec o)) (good_wrap _ _ G0) L0 Gr) as (P & Gt & _).
+  split; [|exact Gt].
+  rewrite P. cbn [map join_operands]. rewrite as_operand_print by assumption.
+  rewrite map_map.
+  rewrite (map_ext_in (fun x => as_operand (print3 x) (S (prec o))) (fun x => print3 (wrap x (S (prec o))))).
+  - apply (join_cons_concat (sep_of o) (fun x => print3 (wrap x (S (prec o))))).
+  - intros x Hin. apply as_operand_print. rewrite Forall_forall in Gr. apply Gr. exact Hin.
+Qed.
+
+(* ---------------------------------------------------------------------------------------------- *)
+(* function calls: templates.  The meaning of a template is its parse with the placeholders replaced
+   by the names __1, __2, ... ("holes"); the intended tree of a call is that shape with the operand
+   trees substituted for the holes. *)
+
+Definition hole (k : nat) : text := 95 :: 95 :: digits_of 20 (N.of_nat k).
+
+Definition hole_index (n : text) : option nat :=
+  match n with
+  | 95 :: 95 :: ds =>
+      match ds, digits_value 0 ds with
+      | _ :: _, Some v => Some (N.to_nat v)
+      | _, _ => None
+      end
+  | _ => None
+  end.
+
+Definition is_hole (s : e3) : bool :=
+  match s with
+  | X3Ref n => match hole_index n with Some _ => true | None => false end
+  | _ => false
+  end.
+
+Fixpoint subst (ts : list e3) (s : e3) : e3 :=
+  match s with
+  | X3Ref n => match hole_index n with Some k => nth (Nat.pred k) ts X3Null | None => s end
+  | X3Dot c l => X3Dot (subst ts c) l
+  | X3Index c i => X3Index (subst ts c) (subst ts i)
+  | X3Call f args => X3Call (subst ts f) (map (subst ts) args)
+  | X3Paren e => X3Paren (subst ts e)
+  | X3Neg e => X3Neg (subst ts e)
+  | X3Bin o a b => X3Bin o (subst ts a) (subst ts b)
+  | _ => s
+  end.
+
+(* asOperatorTemplate: operand i is wrapped to precedence precs[i] *)
+Fixpoint wraps (ts : list e3) (precs : list nat) : list e3 :=
+  match ts, precs with
+  | t :: ts', q :: qs => wrap t q :: wraps ts' qs
+  | _, _ => ts
+  end.
+
+(* the level a position is guaranteed to have after substitution *)
+Definition hlvl (precs : list nat) (s : e3) : nat :=
+  match s with
+  | X3Ref n => match hole_index n with Some k => Nat.min 8 (nth (Nat.pred k) precs 0%nat) | None => 8%nat end
+  | _ => lvl3 s
+  end.
+
+(* the shape stays precedence-stable whatever is substituted ("closed") *)
+Fixpoint hwf (precs : list nat) (s : e3) : bool :=
+  match s with
+  | X3Dot c _ => is_atom c && negb (is_hole c) && hwf precs c
+  | X3Index c i => is_atom c && negb (is_hole c) && hwf precs c && hwf precs i
+  | X3Call f args => is_atom f && negb (is_hole f) && hwf precs f && forallb (hwf precs) args
+  | X3Paren e => hwf precs e
+  | X3Neg e => Nat.leb neg_prec (hlvl precs e) && hwf precs e
+  | X3Bin o a b => Nat.leb (prec o) (hlvl precs a) && Nat.leb (S (prec o)) (hlvl precs b) && hwf precs a && hwf precs b
+  | _ => true
+  end.
+
+Lemma wraps_length : forall ts precs, length (wraps ts precs) = length ts.
+Proof. induction ts as [|t ts IH]; intros [|q qs]; cbn; try reflexivity. rewrite IH. reflexivity. Qed.
+
+Lemma wraps_good : forall ts precs, Forall good ts -> Forall good (wraps ts precs).
+Proof.
+  induction ts as [|t ts IH]; intros [|q qs] G; cbn [wraps]; try assumption.
+  inversion G; subst. constructor; [apply good_wrap; assumption | apply IH; assumption].
+Qed.
+
+Lemma wrap_lvl_min t p : (Nat.min 8 p <= lvl3 (wrap t p))%nat.
+Proof.
+  unfold wrap. destruct (Nat.ltb (lvl3 t) p) eqn:E; cbn [lvl3].
+  - lia.
+  - apply Nat.ltb_ge in E. lia.
+Qed.
+
+Lemma wraps_lvl : forall ts precs i, (Nat.min 8 (nth i precs 0%nat) <= lvl3 (nth i (wraps ts precs) X3Null))%nat.
+Proof.
+  induction ts as [|t ts IH]; intros precs i.
+  - assert (E : nth i (wraps [] precs) X3Null = X3Null) by (destruct precs; destruct i; reflexivity).
+    rewrite E. cbn [lvl3]. apply Nat.le_min_l.
+  - destruct precs as [|q qs].
+    + cbn [wraps]. assert (E : nth i (@nil nat) 0%nat = 0%nat) by (destruct i; reflexivity). rewrite E. lia.
+    + cbn [wraps]. destruct i as [|i]; cbn [nth]; [apply wrap_lvl_min | apply IH].
+Qed.
+
+Lemma operands_of_wraps : forall ts precs, Forall good ts ->
+  operands_of (map print3 ts) precs = map print3 (wraps ts precs).
+Proof.
+  induction ts as [|t ts IH]; intros [|q qs] G; cbn [map operands_of wraps]; try reflexivity.
+  inversion G; subst. rewrite as_operand_print by assumption. rewrite IH by assumption. reflexivity.
+Qed.
+
+Lemma nth_good ts i : Forall good ts -> good (nth i ts X3Null).
+Proof.
+  intros G. destruct (Nat.lt_ge_cases i (length ts)) as [H|H].
+  - rewrite Forall_forall in G. apply G. apply nth_In. exact H.
+  - rewrite nth_overflow by exact H. split; reflexivity.
+Qed.
+
+Lemma subst_head_atom ts s : is_atom s = true -> is_hole s = false -> is_atom (subst ts s) = true.
+Proof.
+  destruct s; cbn [is_atom is_hole subst]; try discriminate; try reflexivity.
+  intros _ H. destruct (hole_index name); [discriminate|reflexivity].
+Qed.
+
+Lemma subst_good precs ts :
+  Forall good ts -> (forall i, (Nat.min 8 (nth i precs 0%nat) <= lvl3 (nth i ts X3Null))%nat) ->
+  forall s, hwf precs s = true -> lex_ok s = true ->
+  good (subst ts s) /\ (hlvl precs s <= lvl3 (subst ts s))%nat.
+Proof.
+  intros G L. induction s using e3_ind'; intros Hw Hl; cbn [subst hwf lex_ok hlvl] in *.
+  - split; [split; [reflexivity|exact Hl] | cbn; lia].
+  - split; [split; [reflexivity|exact Hl] | cbn; lia].
+  - split; [split; reflexivity | cbn; lia].
+  - split; [split; reflexivity | cbn; lia].
+  - split; [split; reflexivity | cbn; lia].
+  - destruct (hole_index n) as [k|].
+    + split; [apply nth_good; exact G | apply L].
+    + split; [split; [reflexivity|exact Hl] | cbn; lia].
+  - apply andb_true_iff in Hw. destruct Hw as [Hw Hc]. apply andb_true_iff in Hw. destruct Hw as [Ha Hh].
+    apply andb_true_iff in Hl. destruct Hl as [Hlc Hll].
+    destruct (IHs Hc Hlc) as [[W X] _].
+    apply negb_true_iff in Hh.
+    split; [|cbn; lia]. split; cbn [wf3b lex_ok].
+    + rewrite (subst_head_atom ts s Ha Hh), W. reflexivity.
+    + rewrite X, Hll. reflexivity.
+  - apply andb_true_iff in Hw. destruct Hw as [Hw Hi]. apply andb_true_iff in Hw. destruct Hw as [Hw Hc].
+    apply andb_true_iff in Hw. destruct Hw as [Ha Hh].
+    apply andb_true_iff in Hl. destruct Hl as [Hlc Hli].
+    destruct (IHs1 Hc Hlc) as [[W1 X1] _]. destruct (IHs2 Hi Hli) as [[W2 X2] _].
+    apply negb_true_iff in Hh.
+    split; [|cbn; lia]. split; cbn [wf3b lex_ok].
+    + rewrite (subst_head_atom ts s1 Ha Hh), W1, W2. reflexivity.
+    + rewrite X1, X2. reflexivity.
+  - apply andb_true_iff in Hw. destruct Hw as [Hw Hargs]. apply andb_true_iff in Hw. destruct Hw as [Hw Hf].
+    apply andb_true_iff in Hw. destruct Hw as [Ha Hh].
+    apply andb_true_iff in Hl. destruct Hl as [Hlf Hlargs].
+    destruct (IHs Hf Hlf) as [[W X] _].
+    apply negb_true_iff in Hh.
+    assert (GA : Forall good (map (subst ts) args)).
+    { rewrite forallb_Forall in Hargs, Hlargs. clear - H Hargs Hlargs.
+      induction args as [|a r IH]; cbn [map]; [constructor|].
+      inversion H; subst. inversion Hargs; subst. inversion Hlargs; subst.
+      constructor; [apply H2; assumption | apply IH; assumption]. }
+    split; [|cbn; lia]. split; cbn [wf3b lex_ok].
+    + rewrite (subst_head_atom ts s Ha Hh), W. cbn [andb]. apply forallb_Forall.
+      eapply Forall_impl; [|exact GA]. intros a [Q _]. exact Q.
+    + rewrite X. cbn [andb]. apply forallb_Forall.
+      eapply Forall_impl; [|exact GA]. intros a [_ Q]. exact Q.
+  - destruct (IHs Hw Hl) as [[W X] _]. split; [split; assumption | cbn; lia].
+  - apply andb_true_iff in Hw. destruct Hw as [Hlv Hw].
+    destruct (IHs Hw Hl) as [Gs Ls]. apply Nat.leb_le in Hlv.
+    split; [|cbn; lia]. apply good_neg; [exact Gs|]. unfold neg_prec in Hlv. lia.
+  - apply andb_true_iff in Hw. destruct Hw as [Hw Hb]. apply andb_true_iff in Hw. destruct Hw as [Hw Ha].
+    apply andb_true_iff in Hw. destruct Hw as [La Lb].
+    apply andb_true_iff in Hl. destruct Hl as [Hla Hlb].
+    destruct (IHs1 Ha Hla) as [Ga LLa]. destruct (IHs2 Hb Hlb) as [Gb LLb].
+    apply Nat.leb_le in La. apply Nat.leb_le in Lb.
+    split; [|cbn; lia]. apply good_bin; try assumption; lia.
+Qed.
+
+(* number of operands a template takes: sequential verbs, or the largest explicit index *)
+Fixpoint pieces_arity (ps : list fpiece) (seq mx : nat) : nat :=
+  match ps with
+  | [] => Nat.max seq mx
+  | FVerb None _ :: r => pieces_arity r (S seq) mx
+  | FVerb (Some n) _ :: r => pieces_arity r seq (Nat.max mx n)
+  | _ :: r => pieces_arity r seq mx
+  end.
+
+Definition tmpl_arity (f : text) : nat := pieces_arity (fmt_pieces (S (length f)) f) 0 0.
+
+Definition tmpl_shape (f : text) : option e3 := canon (sprintf f (map hole (seq 1 (tmpl_arity f)))).
+
+Definition tmpl_tree (f : text) (precs : list nat) (ts : list e3) : option e3 :=
+  if Nat.eqb (length ts) (tmpl_arity f) then
+    match tmpl_shape f with
+    | Some s => if hwf precs s then Some (subst (wraps ts precs) s) else None
+    | None => None
+    end
+  else None.
+
+(* what the table obligation states for a template: instantiating it textually is printing the shape *)
+Definition tmpl_closed (f : text) (precs : list nat) : Prop :=
+  (count_sub t_pct_s f + count_sub t_pct_v f <= tmpl_arity f)%nat /\
+  exists s, tmpl_shape f = Some s /\ hwf precs s = true /\
+    forall ts, length ts = tmpl_arity f -> sprintf f (map print3 ts) = print3 (subst ts s).
+
+Lemma tmpl_ok f precs ts t :
+  tmpl_closed f precs -> Forall good ts -> tmpl_tree f precs ts = Some t ->
+  (if Nat.ltb (length (map print3 ts)) (count_sub t_pct_s f + count_sub t_pct_v f) then []
+   else sprintf f (operands_of (map print3 ts) precs)) = print3 t /\ good t.
+Proof.
+  intros (Hc & s & Hs & Hw & Hp) G H. unfold tmpl_tree in H.
+  destruct (Nat.eqb (length ts) (tmpl_arity f)) eqn:En; [|discriminate].
+  apply Nat.eqb_eq in En. rewrite Hs, Hw in H. inversion H; subst t. clear H.
+  rewrite map_length.
+  assert (E : Nat.ltb (length ts) (count_sub t_pct_s f + count_sub t_pct_v f) = false) by (apply Nat.ltb_ge; lia).
+  rewrite E. rewrite operands_of_wraps by assumption.
+  split.
+  - apply Hp. rewrite wraps_length. exact En.
+  - unfold tmpl_shape in Hs. apply canon_spec in Hs. destruct Hs as [_ [_ Hlex]].
+    apply (subst_good precs (wraps ts precs) (wraps_good _ _ G) (wraps_lvl ts precs) s Hw Hlex).
+Qed.
